@@ -961,10 +961,14 @@ func (e *SpecEnv) evalCall(x *SCall) Val {
 		case "effects":
 			return Val{T: types.Typ[types.Int], S: e.st.get(HeapKey{Name: "G_effects", Sort: "Int"})}
 		case "calls": // calls(NAME): how many calls of NAME this activation has made so far (ghost counter, callassert.go)
-			if len(x.Args) != 1 || e.st == nil {
-				e.fail("calls() takes one function / field / parameter name")
+			if (len(x.Args) != 1 && len(x.Args) != 2) || e.st == nil {
+				e.fail("calls() takes one function / field / parameter name and optionally the ordinal of a call site")
 			}
-			return Val{T: types.Typ[types.Int], S: e.st.get(callsKey(x.Args[0].String()))}
+			name := x.Args[0].String()
+			if len(x.Args) == 2 {
+				name += "#" + x.Args[1].String()
+			}
+			return Val{T: types.Typ[types.Int], S: e.st.get(callsKey(name))}
 		case "fresh": // fresh(x): the object / backing array x refers to was allocated during this call (or x is nil)
 			v := e.eval(x.Args[0])
 			if e.old == nil {
